@@ -140,7 +140,29 @@ def run(ctx: Ctx):
                 elif exp is not None and not glue.close(vb, exp):
                     ctx.violation(f"after the calls / compilations made before, the compiled model returns {vb!r} for {name!r}, the update expression evaluates to {exp!r}",
                                   dict(rp, observed=b["model"], expected=a["oracle_model"]), key="model-value-in-history")
-    ctx.cov["input_distribution"] = dict(n_temps, definitions=len(base), structure_cases=nstruct, python_programs_checked=len(ssa_terms), history_values=n_hist)
+    # ---------------- switching CSE on an existing estimator (the only API that does so: set_params): same outputs, and
+    # nothing else about the estimator changes
+    tjobs = []
+    for i in range(3 if ctx.tier == "quick" else 20):
+        d = M.gen_definition(ctx.rng, rational=True, min_sensors=1, max_sensors=2, max_states=3, max_readings=2)
+        width = len(d["control"]) + sum(len(v) for v in d["sensors"].values())
+        X = [[M.rnd_point(ctx.rng) * (6.0 if rr % 3 == 2 else 1.0) for _ in range(width)] for rr in range(6)]
+        tjobs.append({"kind": "toggle_cse", "defn": d, "decl": {"container": "set", "perm_seed": i}, "k": [None, 7.0, 2.0][i % 3], "X": X})
+    tres = ctx.run_impl_jobs("adapter_py.py", tjobs, shards=4)
+    for j, r in zip(tjobs, tres):
+        if "error" in r:
+            ctx.violation(f"adapter raised while CSE was switched through set_params: {r['kind']}", {"definition": j["defn"], "error": r["error"]}, key="toggle-raises")
+            continue
+        b, a = dict(r["before"]), dict(r["after"])
+        bc, ac = dict(b.pop("config")), dict(a.pop("config"))
+        bc["common_subexpression_elimination"] = ac["common_subexpression_elimination"] = None
+        if b != a or bc != ac:
+            ctx.violation(f"set_params(common_subexpression_elimination=False) also changed other parameters: config {r['before']['config']} -> {r['after']['config']}",
+                          {"definition": j["defn"], "before": r["before"], "after": r["after"]}, key="toggle-changes-other-parameters")
+        elif any(not glue.close(x, y) for ra, rb in zip(r["T_on"], r["T_off"]) for x, y in zip(ra, rb)):
+            ctx.violation("the adapter's transform gives different values with CSE switched off through set_params",
+                          {"definition": j["defn"], "X": j["X"], "on": r["T_on"], "off": r["T_off"]}, key="toggle-changes-values")
+    ctx.cov["input_distribution"] = dict(n_temps, definitions=len(base), structure_cases=nstruct, python_programs_checked=len(ssa_terms), history_values=n_hist, cse_toggles=len(tjobs))
     ctx.cov["traces_validated_against_impl"] = nstruct + len(ssa_terms)
     return ("each definition generated with CSE off and on (a third of them chains of 3-5 nested shared sub-expressions whose middle levels are used "
             "only by other temporaries): Python prediction and updates, and every value of the compiled generated C++, compared between the two "
